@@ -268,6 +268,13 @@ class FermionicArray(AbelianArray):
         x = self.phase_sync() if self.phases else self
         return super(FermionicArray, x).clip(a_min, a_max)
 
+    def item(self):
+        """Convert the block array to a scalar if it is a scalar block array,
+        including any lazy phase.
+        """
+        x = self.phase_sync() if self.phases else self
+        return super(FermionicArray, x).item()
+
     def _map_blocks(self, fn_block=None, fn_sector=None):
         super()._map_blocks(fn_block, fn_sector)
         if fn_sector is not None:
